@@ -15,7 +15,7 @@ RULE = ('one evaluation = one text pushed through compress_code, a length header
         'positions), or one stream pushed through decompress_code; every evaluation is compared with the extracted '
         'model (correspondence) and judged by the extracted reference decoder (monitor). Groups: exhaustive = every '
         'string of length <= 8 (quick) / <= 10 (thorough) over {a, =, newline, A}; lua = structured Lua-like texts; '
-        'edge = repeats at distances 3118..3122 x lengths 16..18; cut = every prefix of texts built around a block; '
+        'edge = repeats at distances 3118..3122 x lengths 16..18 and every distance 3100..3159 x length 17; cut = every prefix of texts built around a block; '
         'update60 = texts mentioning _update60 (all endings, tails running into the appended suffix, texts ending with '
         'the suffix); streams = random well-formed streams incl. overlapping references and every cut of the last block; '
         'malformed = random / truncated / dangling-reference streams (correspondence only). '
@@ -98,6 +98,89 @@ def _filler(rng, n):
     return bytes(rng.randrange(128, 256) for _ in range(n))
 
 
+def _de_bruijn2(alphabet):
+    """cyclic sequence in which every ordered pair over the alphabet occurs exactly once"""
+    k = len(alphabet)
+    a = [0] * (k * 2)
+    seq = []
+
+    def db(t, p):
+        if t > 2:
+            if 2 % p == 0:
+                seq.extend(a[1:p + 1])
+        else:
+            a[t] = a[t - p]
+            db(t + 1, p)
+            for j in range(a[t - p] + 1, k):
+                a[t] = j
+                db(t + 1, t)
+    db(1, 1)
+    return bytes(alphabet[i] for i in seq)
+
+
+_HI = None
+
+
+def _no_match_run(n, start=0):
+    """n bytes >= 0x80 in which no pair of adjacent bytes occurs twice (period 16384): offers no match at all"""
+    global _HI
+    if _HI is None:
+        _HI = _de_bruijn2(list(range(128, 256)))
+    reps = (n + start) // len(_HI) + 2
+    return (_HI * reps)[start:start + n]
+
+
+def source_constants():
+    """(window, max block length, largest offset the packing byte can hold, smallest block length) evaluated from
+    the CURRENT source of compress.py - the same AST nodes the translator regenerates - so that probes sit at the
+    boundaries of whatever the code says now. Falls back to the PICO-8 values."""
+    w, mb, omax, minb = 3120, 17, 3135, 3
+    try:
+        import ast
+        import os
+        import sys
+        g = os.path.join(lib.VERIF, 'gen')
+        if g not in sys.path:
+            sys.path.insert(0, g)
+        import py2gallina as P
+        from pico8.game import compress
+        with open(compress.__file__) as fh:
+            tree = ast.parse(fh.read())
+        env = dict(vars(compress))
+
+        def val(fn, sel, **kw):
+            node = P.select(P.find_function(tree, fn), sel)
+            e = dict(env)
+            e.update(kw)
+            return eval(compile(ast.Expression(body=node), '<k>', 'eval'), {'__builtins__': {'len': len, 'min': min, 'max': max}}, e)
+        w = int(val('_find_repeatable_block', ('assign', 'max_hist_len', 0)))
+        mb = int(val('_find_repeatable_block', ('assign', 'max_block_len', 0)))
+        ok = [o for o in range(0, 8192) if 0 <= val('compress_code', ('call_arg', 'append', 0, 0), block_offset=o) <= 255]
+        omax = max(ok) if ok else omax
+        lens = [b for b in range(0, 40) if val('compress_code', ('if', 2), block_len=b)]
+        minb = min(lens) if lens else minb
+    except Exception:  # noqa
+        pass
+    return w, mb, omax, minb
+
+
+def boundary_texts():
+    """a block repeated at exactly distance d, nothing else in the text offering a match: for d around the window
+    of the current source, around the largest encodable offset, and around the PICO-8 window; block lengths around
+    the smallest and the largest block"""
+    w, mb, omax, minb = source_constants()
+    ds = sorted(set(d for c in (w, omax, 3120, 3135) for d in range(c - 2, c + 3) if d > 40))
+    ls = sorted(set(x for x in (minb - 1, minb, minb + 1, 3, 16, 17, 18, mb - 1, mb, mb + 1) if 1 <= x <= 40))
+    blk_src = b'abcdefghijklmnopqrstuvwxyz0123456789_=()[]{}'
+    out = []
+    for d in ds:
+        for L in ls:
+            blk = blk_src[:L]
+            for lead in (0, 1):
+                out.append(_no_match_run(lead, 7000) + blk + _no_match_run(d - L) + blk + b';')
+    return out
+
+
 def _wf_stream(rng, target, overlap=True):
     """A random well-formed stream and the number of bytes it produces."""
     s = bytearray()
@@ -160,13 +243,20 @@ def generate(tier, rng):
     yield _texts('random', [rng.randbytes(rng.choice([1, 2, 7, 30, 300, 1000])) for _ in range(40 if quick else 400)])
     # 3. window edge: a block of length L repeated at distance d
     edge = []
-    for d in (3118, 3119, 3120, 3121, 3122) if quick else range(3110, 3131):
-        for L in (16, 17, 18) if quick else (3, 4, 15, 16, 17, 18, 19, 34, 35):
-            blk = bytes(rng.choice(b'abcdefghijklmnopqrstuvwxyz_=()') for _ in range(L))
-            lead = _filler(rng, rng.choice([0, 1, 40]))
-            edge.append(lead + blk + _filler(rng, d - L) + blk + _filler(rng, rng.choice([0, 3])))
+    combos = [(d, L) for d in ((3118, 3119, 3120, 3121, 3122) if quick else range(3110, 3131))
+              for L in ((16, 17, 18) if quick else (3, 4, 15, 16, 17, 18, 19, 34, 35))]
+    # every distance from well inside to well past the window (a window constant changed by a few blocks of 16
+    # must show up as a different choice or as a packing failure), block length 17
+    combos += [(d, 17) for d in range(3100, 3160) if (d, 17) not in combos]
+    for d, L in combos:
+        blk = bytes(rng.choice(b'abcdefghijklmnopqrstuvwxyz_=()') for _ in range(L))
+        lead = _filler(rng, rng.choice([0, 1, 40]))
+        edge.append(lead + blk + _filler(rng, d - L) + blk + _filler(rng, rng.choice([0, 3])))
     for i in range(0, len(edge), 5):
         yield _texts('edge', edge[i:i + 5])
+    bt = boundary_texts()
+    for i in range(0, len(bt), 5):
+        yield _texts('boundary', bt[i:i + 5])
     # 4. every cut position of texts built around blocks
     cut = []
     base = b'local abcdefghijklmnopqrs=1\n' + b'xy' + b'local abcdefghijklmnopqrs=12\n' + b'abcdefghijklmnopqrstuvw' + b'zz'
@@ -480,7 +570,9 @@ def search(ctx, budget):
     mod = __import__('props.c05', fromlist=['x'])
     t0 = time.time()
     viol, n = [], 0
-    for c in generate('quick', rng):
+    bt = boundary_texts()
+    first = [_texts('boundary', bt[i:i + 5]) for i in range(0, len(bt), 5)]
+    for c in first + list(generate('quick', rng)):
         if time.time() - t0 > budget or viol:
             break
         r = lib.standard_run(mod, [c], {'monitor_exe': ctx.get('monitor_exe'), 'model_exe': None})
